@@ -58,7 +58,9 @@ func (s *SetWithTTL[T]) Contains(e T) bool {
 	if !ok {
 		return false
 	}
-	return item.After(s.Clock.Now())
+	// an item is present up to and including its expiry instant, which is
+	// what cleanup (and therefore Members and Length) and MapWithTTL use
+	return !item.Before(s.Clock.Now())
 }
 
 func (s *SetWithTTL[T]) cleanup() int {
